@@ -1,3 +1,19 @@
 import Uflow.Props.C07
 open Uflow.Props.C07
 #print axioms C07_u32_lt
+#print axioms C07_server_connect_sound_frame
+#print axioms C07_server_connect_sound
+#print axioms C07_server_reachable_ok
+#print axioms C07_server_no_connect_elsewhere
+#print axioms C07_server_nonce_origin
+#print axioms C07_server_pending_origin
+#print axioms C07_server_nonce_provenance
+#print axioms C07_server_connect_once
+#print axioms C07_forged_noop_server
+#print axioms C07_forged_ack_cases
+#print axioms C07_undecodable_noop
+#print axioms C07_refusal_server
+#print axioms C07_accept_only_if
+#print axioms C07_agreement
+#print axioms C07_agreement_frames
+#print axioms C07_agreement_exchange
